@@ -289,6 +289,10 @@ func init() {
 			return dir
 		},
 		verifrtPath + ".RemoveTempDir": func(m *Machine, fr *frame, a []value) value { return nil },
+		verifrtPath + ".SchedPreemptBeforeChanOps": func(m *Machine, fr *frame, a []value) value {
+			m.sch().preemptBeforeChanOps = a[0].(bool)
+			return nil
+		},
 		verifrtPath + ".Yields": func(m *Machine, fr *frame, a []value) value { return int64(m.sch().yields) },
 		verifrtPath + ".MustTerminate": func(m *Machine, fr *frame, a []value) value {
 			m.path.mustTerminate = concStr(a[0])
